@@ -506,7 +506,12 @@ impl IntoIterator for Table {
     type IntoIter = IntoIter;
 
     fn into_iter(self) -> Self::IntoIter {
-        Box::new(self.items.into_iter().map(|(k, value)| (k.into(), value)))
+        Box::new(
+            self.items
+                .into_iter()
+                .filter(|(_, value)| !value.is_none())
+                .map(|(k, value)| (k.into(), value)),
+        )
     }
 }
 
